@@ -22,6 +22,7 @@ pub struct C06 {
 
 impl C06 {
     pub fn new(tier: Tier, seed: u64, scale: u64) -> C06 {
+        wrap::ODD_PNG_HEADERS.store(false, std::sync::atomic::Ordering::Relaxed);
         C06 {
             tier,
             seed,
@@ -175,6 +176,22 @@ impl Monitor for C06 {
                 let c = 1 + r.usize_below(z.len() - 1);
                 let v = wrap::png_wrap(&mut r, &z, &[c, c], true, &[]);
                 (v, 33, z.len() + 36, "png zero-length IDAT chunk inside the run".to_string())
+            } else if w != 2 && r.chance(1, 6) {
+                // the wrapped stream as the data of a STORED (method 0) ZIP entry, e.g. a .gz or .png inside
+                // an archive: the scanner has to look inside the stored data
+                let (inner, off, span, variant) = wrap::wrap_stream(&mut r, &s, w, false);
+                let name_len = r.usize_below(20);
+                let mut v = vec![0x50, 0x4b, 0x03, 0x04, 10, 0, 0, 0, 0, 0];
+                v.extend_from_slice(&(r.next() as u32).to_le_bytes());
+                v.extend_from_slice(&wrap::crc32(&inner).to_le_bytes());
+                v.extend_from_slice(&(inner.len() as u32).to_le_bytes());
+                v.extend_from_slice(&(inner.len() as u32).to_le_bytes());
+                v.extend_from_slice(&(name_len as u16).to_le_bytes());
+                v.extend_from_slice(&0u16.to_le_bytes());
+                v.extend((0..name_len).map(|_| b'a' + r.below(26) as u8));
+                let hdr = v.len();
+                v.extend_from_slice(&inner);
+                (v, hdr + off, span, format!("stored-zip-entry around [{}]", variant))
             } else {
                 wrap::wrap_stream(&mut r, &s, w, hostile)
             };
